@@ -6,6 +6,7 @@ package otr3
 // Thin exported wrappers around unexported pure functions, plus state snapshots.
 
 import (
+	"crypto/aes"
 	"fmt"
 	"math/big"
 	"reflect"
@@ -737,8 +738,8 @@ func VerifCraftRevealSig(c *Conversation, block []byte) ([]byte, bool) {
 	if _, ok := c.ake.state.(authStateAwaitingSig); !ok {
 		return nil, false
 	}
-	xb, err := encrypt(c.ake.revealKey.c, append([]byte{}, block...))
-	if err != nil {
+	xb := make([]byte, len(block))
+	if err := counterEncipher(c.ake.revealKey.c, make([]byte, aes.BlockSize), block, xb); err != nil {
 		return nil, false
 	}
 	enc := AppendData(nil, xb)
